@@ -402,11 +402,12 @@ def rename_locals_in_contract(c, ren):
     import re as _re
     if not ren:
         return c
-    pat = _re.compile(r"\b(" + "|".join(_re.escape(k) for k in ren) + r")\b")
+    # identifiers only: the text of a string literal inside a clause (`tmp / 'src' / 'main.cpp'`) is not a local
+    pat = _re.compile(r"('(?:[^'\\]|\\.)*'|\"(?:[^\"\\]|\\.)*\")|(?<![\w.])(" + "|".join(_re.escape(k) for k in ren) + r")\b")
 
     def sub(x):
         if isinstance(x, str):
-            return pat.sub(lambda m: ren[m.group(1)], x)
+            return pat.sub(lambda m: m.group(1) if m.group(1) is not None else ren[m.group(2)], x)
         if isinstance(x, list):
             return [sub(y) for y in x]
         if isinstance(x, tuple):
